@@ -128,6 +128,7 @@ static int transition(const uint16_t *hist, int d, int opi, char *ckey, int verb
     if (t->range != EFFRANGE) vc_viol("map:range", "range %zu, expected %zu", t->range, EFFRANGE);
     char after[64];
     for (int i = 0; i < d; i++) { snprintf(after, sizeof after, "step %d (op %d)", i, hist[i]); apply(t, &m, &OPS[hist[i]], verbose, after); if (verbose) observe(t, &m, after); }
+    vc_asan_check();   /* reports raised by the history prefix belong to the transitions that ended in those ops */
     snprintf(after, sizeof after, "op %d", opi);
     apply(t, &m, &OPS[opi], 1, after);
     observe(t, &m, after);
